@@ -271,6 +271,8 @@ enum St : int { Dead = 0, Live = 1, MovedFrom = 2 };
 struct Monitor {
     std::map<Loc, int> st;
     bool wf{true};
+    // lean: the automaton only (no projection / raw text): histories with tens of thousands of events (ops bhist / bmon)
+    bool lean{false};
 
     auto get(Loc const& l) const -> int
     {
@@ -308,7 +310,7 @@ struct Monitor {
             return "t" + std::to_string(it->second);
         };
         auto tok = [&](Loc const& l, std::string const& t) {
-            if (l.first < 0) { return; }
+            if (l.first < 0 || lean) { return; }
             auto& s = out.proj[l];
             if (!s.empty()) { s += ','; }
             s += t;
@@ -327,8 +329,8 @@ struct Monitor {
             if (e.kind == CC || e.kind == AC) { k3 = "c"; }
             if (is_move) { k3 = "m"; }
             if (!out.raw.empty()) { out.raw += ' '; }
-            std::string nl = name(l);
-            std::string ns = has_src ? name(s) : std::string();
+            std::string nl = lean ? std::string() : name(l);
+            std::string ns = (has_src && !lean) ? name(s) : std::string();
             switch (e.kind) {
             case CV:
             case CC:
@@ -338,7 +340,7 @@ struct Monitor {
                 tok(l, std::string("C") + k3 + (has_src ? std::string(1, sname(ss)) : std::string()));
                 if (is_move && ss != Dead) { st[s] = MovedFrom; }
                 st[l] = Live;
-                out.raw += std::string("C") + k3 + ":" + nl + ":" + (has_src ? ns : std::to_string(e.value));
+                if (!lean) { out.raw += std::string("C") + k3 + ":" + nl + ":" + (has_src ? ns : std::to_string(e.value)); }
                 break;
             }
             case AC:
@@ -348,28 +350,28 @@ struct Monitor {
                 tok(l, std::string("A") + k3 + (has_src ? std::string(1, sname(ss)) : std::string()));
                 if (is_move && ss != Dead) { st[s] = MovedFrom; }
                 st[l] = Live;
-                out.raw += std::string("A") + k3 + ":" + nl + ":" + ns;
+                if (!lean) { out.raw += std::string("A") + k3 + ":" + nl + ":" + ns; }
                 break;
             }
             case AV: {
                 legal = ls != Dead;
                 tok(l, "Av");
                 st[l] = Live;
-                out.raw += "Av:" + nl + ":" + std::to_string(e.value);
+                if (!lean) { out.raw += "Av:" + nl + ":" + std::to_string(e.value); }
                 break;
             }
             case DT: {
                 legal = ls != Dead;
                 tok(l, "D");
                 st[l] = Dead;
-                out.raw += "D:" + nl;
+                if (!lean) { out.raw += "D:" + nl; }
                 if (l.first < 0) { tname.erase(l); }
                 break;
             }
             default: {
                 legal = ls != Dead;
                 tok(l, "U");
-                out.raw += "U:" + nl;
+                if (!lean) { out.raw += "U:" + nl; }
                 break;
             }
             }
